@@ -113,6 +113,12 @@ func runData(c *vh.Ctx, d dataIn) *hsms.DataMessage {
 	if mb, e := m.Codec().MarshalBinary(); e != nil || !bytes.Equal(mb, frame) {
 		c.Fail("Codec().MarshalBinary differs from ToBytes", line)
 	}
+	if derr == nil {
+		var cd hsms.DataMessageCodec
+		if e := cd.UnmarshalBinary(frame); e != nil || cd.Message == nil || cd.HeaderBytes() != hb || !bytes.Equal(cd.ToBytes(), frame) {
+			c.Fail("DataMessageCodec.UnmarshalBinary does not reproduce the message", line)
+		}
+	}
 	if m.Stream() != d.stream || m.Function() != d.fn || m.WaitBit() != d.w || m.SessionID() != d.sid || m.SystemBytes() != d.sb ||
 		m.ID() != binary.BigEndian.Uint32(d.sb[:]) || m.BodyLen() != len(body) {
 		c.Fail("accessors do not read back the constructor arguments", line)
